@@ -20,8 +20,6 @@ PROPERTY = {
     "timeout": 900,
     "kani": [
         Harness("c15_twin_add_tablet_n0", "C15.twin.add_tablet.n0", "BOUNDED", "same post-condition as the Verus contract of add_tablet (sorted+disjoint, new tablet present, exactly the overlapped ones discarded, unknown-replica flag), on the compiled code", bound="lists of exactly 0 tablets, full i64 ranges, symbolic flags", twin=True, functions=["scylla/src/routing/locator/tablets.rs:TableTablets::add_tablet"]),
-        Harness("c15_twin_add_tablet_n1", "C15.twin.add_tablet.n1", "BOUNDED", "same post-condition as the Verus contract of add_tablet (sorted+disjoint, new tablet present, exactly the overlapped ones discarded, unknown-replica flag), on the compiled code", bound="lists of exactly 1 tablets, full i64 ranges, symbolic flags", twin=True, functions=["scylla/src/routing/locator/tablets.rs:TableTablets::add_tablet"]),
-        Harness("c15_twin_add_tablet_n2", "C15.twin.add_tablet.n2", "BOUNDED", "same post-condition as the Verus contract of add_tablet (sorted+disjoint, new tablet present, exactly the overlapped ones discarded, unknown-replica flag), on the compiled code", bound="lists of exactly 2 tablets, full i64 ranges, symbolic flags", twin=True, functions=["scylla/src/routing/locator/tablets.rs:TableTablets::add_tablet"]),
         Harness("c15_twin_tablet_for_token_n1", "C15.twin.tablet_for_token.n1", "BOUNDED", "same post-condition as the Verus contract of tablet_for_token, on the compiled code", bound="lists of exactly 1 tablets, full i64 ranges", twin=True, functions=["scylla/src/routing/locator/tablets.rs:TableTablets::tablet_for_token"]),
         Harness("c15_twin_tablet_for_token_n2", "C15.twin.tablet_for_token.n2", "BOUNDED", "same post-condition as the Verus contract of tablet_for_token, on the compiled code", bound="lists of exactly 2 tablets, full i64 ranges", twin=True, functions=["scylla/src/routing/locator/tablets.rs:TableTablets::tablet_for_token"]),
     ],
